@@ -51,6 +51,49 @@ def wfViolations (P : Prepared) : List String := Id.run do
             if it.kind != .stageOutput then bad := ("output_kind:" ++ outputNodeId step stage out) :: bad
             else if it.step != step || it.stage != stage then bad := ("output_unamb:" ++ outputNodeId step stage out) :: bad
           | none => pure ()
+  -- WF2 (Arca/Proofs/LoopSafe.lean): what the panic-freedom theorem additionally assumes
+  if g.edges.any (fun e => e.2.1 == "input") then bad := "input_no_deps" :: bad
+  match lookup "input" P.items with
+  | some it => if it.kind != .input then bad := "input_kind" :: bad
+  | none => pure ()
+  for (id, it) in P.items do
+    if it.kind == .stage then
+      if it.step == "" || it.stage == "" then bad := ("stage_ids_nonempty:" ++ id) :: bad
+      match it.data with
+      | some (.map _) => pure ()
+      | some _ => bad := ("stage_data_map:" ++ id) :: bad
+      | none => pure ()
+    if it.data.isSome && it.kind != .stage && it.kind != .output then bad := ("kinds_handled:" ++ id) :: bad
+  for (step, sts) in P.stages do
+    for (stage, outs) in sts do
+      for o in outs do
+        let oid := outputNodeId step stage o
+        if (lookup oid P.items).isNone then bad := ("output_nodes.missing:" ++ oid) :: bad
+        if !((g.edges.filter (fun e => e.2.1 == oid)).all (fun e => e.1 == stageNodeId step stage && e.2.2 == .and)) then
+          bad := ("output_nodes.edges:" ++ oid) :: bad
   return bad.reverse
+
+/-- executable version of `LegalEvent` (Arca/Proofs/LoopSafe.lean): the provider contract for one callback -/
+def legalEvent (P : Prepared) (s : LoopState) (e : Event) : Bool :=
+  let declares (step stage : String) : Bool := match lookup step P.stages with
+    | some sts => (lookup stage sts).isSome
+    | none => false
+  let st (id : String) : Option St := s.dag.statusOf id
+  match e with
+  | .start _ => s.dag.nodes.all (fun n => n.status == .waiting)
+  | .stageChange _ none _ _ => true
+  | .stageChange step (some prev) out _ =>
+    declares step prev && st (stageNodeId step prev) == some .waiting &&
+    (P.dag.edges.filter (fun ed => ed.2.1 == stageNodeId step prev)).all (fun ed =>
+      (ed.2.2 != .and || st ed.1 == some .resolved) && ed.2.2 != .or) &&
+    (match out with
+     | none => true
+     | some (oid, _) => (P.outputsOf step prev).contains oid &&
+         (P.outputsOf step prev).all (fun o => st (outputNodeId step prev o) == some .waiting))
+  | .stageFail step stage =>
+    declares step stage && st (stageNodeId step stage) != some .resolved &&
+    (P.outputsOf step stage).all (fun o => st (outputNodeId step stage o) != some .resolved)
+  | .tick _ _ => true
+  | .drain => true
 
 end Arca.Driver
